@@ -19,7 +19,7 @@ ROOT = os.path.dirname(os.path.dirname(os.path.abspath(__file__)))
 PROP_MODULES = {
     "C16": ["contracts.c16"],
     "C17": ["contracts.c17"],
-    "C05": ["contracts.c05"],
+    "C05": ["contracts.c05", "contracts.c05b"],
     "C08": ["contracts.c08"],
 }
 
@@ -67,7 +67,7 @@ def load_module(modname):
         return mod._pyvc_contracts
     C.REGISTRY.clear()
     mod = importlib.import_module(modname)
-    mod._pyvc_contracts = list(C.REGISTRY)
+    mod._pyvc_contracts = [c for c in C.REGISTRY if type(c).__module__ == modname]
     return mod._pyvc_contracts
 
 
